@@ -382,7 +382,7 @@ func c16Run(c c16Case, s *c16State, par bool) (fail string) {
 		}
 	} else {
 		// segments separated by idle phases; inside a segment no delays at all
-		horizon = 20 * time.Second // real time
+		horizon = c16ParLimit // real time
 		seg := [][]int{nil}
 		for i, e := range c.Ev {
 			if e.Gap >= c16IdleGap && i > 0 {
@@ -426,7 +426,7 @@ func c16Run(c c16Case, s *c16State, par bool) (fail string) {
 			select {
 			case <-done:
 			case <-time.After(horizon):
-				return fmt.Sprintf("operations did not return within %v of real time: %s", horizon, stuck())
+				return fmt.Sprintf("operations did not return within %v of real time (deadlock): %s", horizon, stuck())
 			}
 		}
 	}
@@ -761,7 +761,7 @@ func c16History(s *c16State) string {
 
 // ---------------------------------------------------------------- interpreters
 
-var c16Watchdog = 20 * time.Second // real time; a case needs about a millisecond
+var c16Watchdog = 10 * time.Second // real time; a case needs about a millisecond
 
 func c16Verdict(c c16Case, s *c16State, res *c16Result) (v kit.Verdict) {
 	for k := range res.classes {
@@ -812,9 +812,9 @@ func c16Interp(t *testing.T, c c16Case) (v kit.Verdict) {
 	case <-time.After(c16Watchdog):
 		// a goroutine is blocked on a mutex for ever (not a durable block, so synctest
 		// cannot report it) or the bubble spins through virtual time
-		c16Watchdog = 3 * time.Second // shrinking: do not wait as long again
+		c16Watchdog = 2 * time.Second // shrinking: do not wait as long again
 		return kit.Verdict{Classes: []string{"watchdog"},
-			Fail: "case did not finish within 20 s of real time: a goroutine stays blocked on a sync.Mutex for ever (synctest cannot see that) or virtual time runs away"}
+			Fail: "case did not finish within 10 s of real time: a goroutine stays blocked on a sync.Mutex for ever (synctest cannot see that) or virtual time runs away"}
 	}
 	v = c16Verdict(c, s, res)
 	if v.Fail == "" || v.Known != "" {
@@ -830,14 +830,20 @@ func c16Interp(t *testing.T, c c16Case) (v kit.Verdict) {
 	return v
 }
 
-var c16BaseGoroutines int
+var (
+	c16BaseGoroutines int
+	// c16ParDirty: an earlier exec-parallel case failed and may have left goroutines behind
+	// (shrinking goes on in the same process): no goroutine counting, short real-time limits.
+	c16ParDirty bool
+	c16ParLimit = 20 * time.Second
+)
 
 // c16InterpPar: real clock, real parallelism, no bubble.
 func c16InterpPar(t *testing.T, c c16Case) (v kit.Verdict) {
 	res := &c16Result{classes: map[string]bool{c.Kind: true}}
 	s := &c16State{}
 	settle := func() bool { // wait until only the test's own goroutines are left
-		for i := 0; i < 5000; i++ {
+		for i := 0; i < 5000 && !c16ParDirty; i++ {
 			if runtime.NumGoroutine() <= c16BaseGoroutines {
 				return true
 			}
@@ -847,6 +853,7 @@ func c16InterpPar(t *testing.T, c c16Case) (v kit.Verdict) {
 	}
 	strong := c.Q && settle()
 	if f := c16Run(c, s, true); f != "" {
+		c16ParDirty, c16ParLimit = true, 2*time.Second
 		return kit.Verdict{Fail: f, Classes: []string{"stuck"}}
 	}
 	if strong {
@@ -854,6 +861,7 @@ func c16InterpPar(t *testing.T, c c16Case) (v kit.Verdict) {
 		if !settle() {
 			buf := make([]byte, 1<<16)
 			buf = buf[:runtime.Stack(buf, true)]
+			c16ParDirty = true
 			res.fail = fmt.Sprintf("leak: 10 s (real time, interval %v) after the final Wait %d goroutines are alive, %d before the case:\n%s",
 				c.interval(), runtime.NumGoroutine(), c16BaseGoroutines, buf)
 		}
@@ -1053,11 +1061,31 @@ func c16Enumerate(maxAdds int, maxes []int, lats [][]int) func(yield func(c16Cas
 
 // ---------------------------------------------------------------- tests
 
+// c16Repeat: replaying a file (bin/check --replay) runs the case up to 200 times
+// and reports the first failing run. The order in which goroutines that become
+// runnable at the same (virtual) instant are run is not part of the case: -race
+// builds randomise the run queue (runtime.randomizeScheduler) and select picks
+// randomly, so a single run of a schedule-dependent failure reproduces only with
+// some probability.
+func c16Repeat(interp func(c16Case) kit.Verdict) func(c16Case) kit.Verdict {
+	if os.Getenv("VERIF_REPLAY") == "" {
+		return interp
+	}
+	return func(c c16Case) (v kit.Verdict) {
+		for i := 0; i < 200; i++ {
+			if v = interp(c); v.Fail != "" {
+				return v
+			}
+		}
+		return v
+	}
+}
+
 func TestVerif_C16_random(t *testing.T) {
 	// one P: the goroutines of a bubble interleave only at blocking points (see verif.json level_note)
 	defer runtime.GOMAXPROCS(runtime.GOMAXPROCS(1))
 	kit.Run(t, "C16", "exec-random", kit.Opts{Quick: 6000, Thorough: 240000}, c16Gen,
-		func(c c16Case) kit.Verdict { return c16Interp(t, c) })
+		c16Repeat(func(c c16Case) kit.Verdict { return c16Interp(t, c) }))
 }
 
 func TestVerif_C16_smallscope(t *testing.T) {
@@ -1067,7 +1095,7 @@ func TestVerif_C16_smallscope(t *testing.T) {
 		maxAdds, maxes, lats = 4, []int{1, 2}, [][]int{nil, {3}}
 	}
 	kit.Enumerate(t, "C16", "exec-small-scope", c16Enumerate(maxAdds, maxes, lats),
-		func(c c16Case) kit.Verdict { return c16Interp(t, c) })
+		c16Repeat(func(c c16Case) kit.Verdict { return c16Interp(t, c) }))
 }
 
 func TestVerif_C16_parallel(t *testing.T) {
@@ -1076,5 +1104,5 @@ func TestVerif_C16_parallel(t *testing.T) {
 	}
 	c16BaseGoroutines = runtime.NumGoroutine()
 	kit.Run(t, "C16", "exec-parallel", kit.Opts{Quick: 1200, Thorough: 32000}, c16GenPar,
-		func(c c16Case) kit.Verdict { return c16InterpPar(t, c) })
+		c16Repeat(func(c c16Case) kit.Verdict { return c16InterpPar(t, c) }))
 }
